@@ -78,6 +78,8 @@ Judge(ev) ==
               (* deadline passed since the last generic command on that shard                              *)
               stale == IF /\ "path" \in DOMAIN ev /\ ev.path # "generic" /\ ev.c.op = "GET"
                           /\ ev.c.k \in DOMAIN pre /\ pre[ev.c.k].exp # -1 /\ pre[ev.c.k].exp <= now
+                          (* ... but not right after the TTL manager's tick at this very instant: the tick visits every shard *)
+                          /\ ~("ticked" \in DOMAIN ev /\ ev.ticked)
                        THEN {[id |-> "fast_path_stale_clock", res |-> Res(DoGet(ev.c, pre).r, Live(pre, now))]} ELSE {}
               devs == {d \in DevAlts(ev.c, pre, now) \cup stale : Match(d.res)}
           IN
@@ -130,6 +132,16 @@ TraceNext ==
                /\ (ev.one # ev.many =>
                      PrintT(<<"VERDICT", ToJson([run |-> run, l |-> l, v |-> "bad", op |-> "SCAN",
                                                  what |-> "one SCAN call is answered differently by a 1-shard and an N-shard server holding the same keys"])>>))
+          ELSE IF ev.a = "twin" THEN        \* C03 read literally, for any command (also those outside the model): same reply from 1 and N shards
+               /\ run' = run /\ pre' = pre /\ known' = known
+               /\ (ev.r1 # ev.rn =>
+                     PrintT(<<"VERDICT", ToJson([run |-> run, l |-> l, v |-> "bad", op |-> "TWIN",
+                                                 what |-> "a command is answered differently by a 1-shard and an N-shard server after the same history"])>>))
+          ELSE IF ev.a = "twinend" THEN
+               /\ run' = run /\ pre' = pre /\ known' = known
+               /\ (ev.s1 # ev.sn =>
+                     PrintT(<<"VERDICT", ToJson([run |-> run, l |-> l, v |-> "bad", op |-> "TWIN",
+                                                 what |-> "a 1-shard and an N-shard server end with different keyspaces after the same command sequence"])>>))
           ELSE IF ev.c.op \in ScriptOps THEN
                /\ JudgeScript(ev) /\ run' = run /\ pre' = JState(ev.s)
                /\ known' = DoScript(ev.c, pre, known, ev.now).kn
